@@ -5,7 +5,8 @@ from props.stress import stress_extra
 RL = {"name": "ratelimit", "coq_run": "Model.Limiter.run", "quick": 600, "thorough": 30000}
 RLSTRESS_WHAT = ("requests of ONE source running through the limiter at the same time on a frozen clock: simultaneous first "
                  "requests of an untracked source are admitted exactly burst times; a simultaneous flood rejected by the "
-                 "per-second rate leaves the hour budget untouched")
+                 "per-second rate leaves the hour budget untouched; a tracked source with 1999 tokens left gets exactly 1999 of "
+                 "4000 simultaneous requests admitted")
 
 SPEC = {
     "components": [RL],
